@@ -288,24 +288,28 @@ def restLoop (tot : Comp) : List (List Char) → Except ErrKind Comp
     | .ok c => restLoop (addScaled (m : Nat) tot c) ps
     | .error e => .error e
 
+/-- the loop of `formula_to_composition` over the hydrate parts of the stoichiometry token:
+    split on '·' if present, else on "..": the first part as it is, the others with their leading integer -/
+def stoichToComp (stoich : List Char) : Except ErrKind Comp :=
+  let (p0, ps) := if stoich.contains '·' then splitChar '·' stoich else splitDD stoich
+  match parseStoich p0 with
+  | .error e => .error e
+  | .ok c0 => restLoop (addScaled 1 [] c0) ps
+
 /-- `formula_to_composition` with explicit prefix / suffix lists -/
 def formulaToCompositionWith (prefixes suffixes : List (List Char)) (s : List Char) : Except ErrKind Comp :=
   match formulaToParts prefixes suffixes s with
   | .error e => .error e
   | .ok pts =>
-    let (p0, ps) := if pts.stoich.contains '·' then splitChar '·' pts.stoich else splitDD pts.stoich
-    match parseStoich p0 with
+    match stoichToComp pts.stoich with
     | .error e => .error e
-    | .ok c0 =>
-      match restLoop (addScaled 1 [] c0) ps with
-      | .error e => .error e
-      | .ok tot =>
-        match pts.chg with
-        | none => .ok tot
-        | some chg =>
-          match getCharge chg with
-          | .ok q => .ok (setKey 0 (q : Rat) tot)
-          | .error e => .error e
+    | .ok tot =>
+      match pts.chg with
+      | none => .ok tot
+      | some chg =>
+        match getCharge chg with
+        | .ok q => .ok (setKey 0 (q : Rat) tot)
+        | .error e => .error e
 
 /-- `formula_to_composition(formula)` with the default prefixes (`_latex_mapping.keys()`) and suffixes;
     this is also `Substance.from_formula(formula).composition` -/
